@@ -69,7 +69,24 @@ def make_E(opts):
 
 def make_E2(opts):
     return _make_E(opts, 'little')
-'''
+
+
+def _make_L(opts, end):
+    # a LONG declaration (41 fields, generated pack and unpack code of more than 4 KiB each, a cache file of more than 8 KiB);
+    # the two declarations differ in the byte order of the LAST field only
+    class K(Packet):
+        __bisturi__ = opts
+%s        z = Int(2, endianness=end)
+    return K
+
+
+def make_L(opts):
+    return _make_L(opts, 'big')
+
+
+def make_L2(opts):
+    return _make_L(opts, 'little')
+''' % ''.join('        a%02d = Int(1)\n        b%02d = Int(3)\n' % (i, i) for i in range(20))
 
 OPTS = {
     'def': {},
@@ -80,7 +97,9 @@ OPTS = {
     'ponly': {'generate_for_unpack': False},
 }
 
-INPUTS = [b'\x00', b'\x7f', b'\xff', b'\x01\x02', b'\xff\xfe', b'\x01x', b'']
+LONG = bytes(range(1, 83))
+INPUTS = [b'\x00', b'\x7f', b'\xff', b'\x01\x02', b'\xff\xfe', b'\x01x', b'', LONG]
+LNAMES = tuple(n for i in range(20) for n in ('a%02d' % i, 'b%02d' % i)) + ('z',)
 
 
 def _u8(b):
@@ -105,17 +124,28 @@ def expected(decl):
             out.append(('ok', (raw[0] * 256 + raw[1],)) if len(raw) >= 2 else ('err',))
         elif decl == 'E2':
             out.append(('ok', (raw[0] + raw[1] * 256,)) if len(raw) >= 2 else ('err',))
+        elif decl in ('L', 'L2'):
+            if len(raw) < 82:
+                out.append(('err',))
+            else:
+                vals = []
+                for i in range(20):
+                    vals.append(raw[4 * i])
+                    vals.append(int.from_bytes(raw[4 * i + 1:4 * i + 4], 'big'))
+                vals.append(int.from_bytes(raw[80:82], 'big' if decl == 'L' else 'little'))
+                out.append(('ok', tuple(vals)))
         elif decl == 'C':
             out.append(('ok', (raw[0], raw[1:2])) if len(raw) >= 2 else ('err',))
         elif decl == 'V':
             out.append(('ok', (raw[0], raw[1:1 + raw[0]])) if len(raw) >= 1 and len(raw) >= 1 + raw[0] else ('err',))
     packs = {'A': (b'\x00', b'\x05'), 'A2': (b'\x00', b'\x05'), 'B': (b'\x00\x00', b'\x00\x05'), 'C': (b'\x00\x00', b'\x05\x00'),
-             'V': (b'\x00', b'\x05'), 'E': (b'\x00\x00', b'\x00\x05'), 'E2': (b'\x00\x00', b'\x05\x00')}[decl]
-    neg = {'A': ('err',), 'A2': ('ok', b'\xff'), 'B': ('err',), 'C': ('err',), 'V': ('err',), 'E': ('err',), 'E2': ('err',)}[decl]
+             'V': (b'\x00', b'\x05'), 'E': (b'\x00\x00', b'\x00\x05'), 'E2': (b'\x00\x00', b'\x05\x00'),
+             'L': (bytes(82), b'\x05' + bytes(81)), 'L2': (bytes(82), b'\x05' + bytes(81))}[decl]
+    neg = {'A': ('err',), 'A2': ('ok', b'\xff'), 'B': ('err',), 'C': ('err',), 'V': ('err',), 'E': ('err',), 'E2': ('err',), 'L': ('err',), 'L2': ('err',)}[decl]
     return (tuple(out), ('ok', packs[0]), ('ok', packs[1]), neg)
 
 
-FIELDS = {'A': ('a',), 'A2': ('a',), 'B': ('a',), 'C': ('a', 'b'), 'V': ('n', 'd'), 'E': ('a',), 'E2': ('a',)}
+FIELDS = {'A': ('a',), 'A2': ('a',), 'B': ('a',), 'C': ('a', 'b'), 'V': ('n', 'd'), 'E': ('a',), 'E2': ('a',), 'L': LNAMES, 'L2': LNAMES}
 
 
 def battery(K, decl):
